@@ -17,6 +17,8 @@ func init() {
 	c07 := simple("C07", "kernel", "mm/vmm", 4)
 	// the allocator bootstrap is the in-tree client that maps a reservation page by page itself
 	c07.runs = append(c07.runs, runSpec{name: "pmm", pkg: "mm/pmm", test: "^TestVerifC07Pmm$", shards: 4})
+	// reservations before and after the kernel builds its own address space
+	c07.runs = append(c07.runs, runSpec{name: "init", test: "^TestVerifC07Init$", shards: 2})
 	register(c07)
 	register(&prop{id: "C08", module: "kernel", pkg: "sync", level: "exploration", perCase: 150 * time.Second, post: postLockHistories,
 		runs: []runSpec{
